@@ -25,12 +25,16 @@ EXPLANATION = {p: _MIX for p in LEVEL}
 # bounded stand-ins (native exhaustive small-scope contract checking, /verif/bounded/cases.py): property -> [(case, clause filter)]
 # a filter is a tuple of substrings: only failures whose clause contains one of them count for that property (None = all)
 BOUNDED_CASES = {
+    "C02": [("assorters", None)],
+    "C03": [("overstatement", ("mean(B)", "does not raise"))],
     "C04": [("raire", ("does not raise", "list of assertions", "empty list exactly", "holds on the CVRs", "every elimination order"))],
-    "C15": [("raire", ("largest difficulty",))],
-    "C07": [("consistent_sampling", None), ("assign_sample_nums", None)],
+    "C06": [("overstatement", ("0 <= B",)), ("data_and_pvalues", ("u = assorter bound", "only cards whose CVR", "data lie in"))],
+    "C07": [("consistent_sampling", None), ("assign_sample_nums", None), ("data_and_pvalues", ("only cards whose CVR",))],
+    "C08": [("make_phantoms", None), ("overstatement", ("phantom",))],
+    "C09": [("data_and_pvalues", ("recorded p-value", "proved reflects", "measured risk", "complete iff", "reset restores"))],
     "C10": [("sampling_escalation", None), ("escalation_pvalues", None)],
-    "C08": [("make_phantoms", None)],
-    "C14": [("raire_readers", ("both readers", "load_contests_from_raire"))],
+    "C14": [("raire_readers", ("both readers", "load_contests_from_raire")), ("irv_predicates", None)],
+    "C15": [("raire", ("largest difficulty",))],
     "C16": [("interleave_values", None), ("find_sample_size", None), ("audit_find_sample_size", None)],
     "C17": [("manifests", None)],
     "C18": [("merge_cvrs", None), ("raire_readers", ("from_raire",))],
